@@ -17,7 +17,10 @@ MANIFEST = {
             'non-invertible, field_theory instance. The model is compared with the real classes on every run (all pairs for '
             'p <= 31, random+boundary for 101, 257, 61- and 64-bit primes of both classes mod 4). A final interleaved pass mixes '
             'operations of different fields in one sequence (same shift count / inverse / power back to back across prime, '
-            'binary and extension fields) against the per-field oracle, so state shared between field classes is exercised.',
+            'binary and extension fields) against the per-field oracle, so state shared between field classes is exercised. '
+            'Every operator result in the oracle is also checked for a normalised representation and eq/bool/hash consistency '
+            'with the canonical element, and a zero-operand stream (F(0), int 0, polynomial 0, multiples of p; either side; '
+            'binary, in-place, reflected, /, **) demands value 0, falsy, a*0 == 0*a on every field kind.',
     'note': 'Coq model restricted to prime fields (scalar classes; array classes ignored). Extension fields GF(3^2..3^4), '
             'GF(5^2), GF(5^3), GF(7^2) and binary fields GF(2^d) d<=8,16 are covered by the implementation-level oracle '
             'only (independent polynomial reference arithmetic, field axioms on all triples for order <= 32, sampled above), '
@@ -266,6 +269,7 @@ def oracle_field(ctx, name, F, R, kind):
         ctx.violation('%s %s' % (what, name), kw)
 
     canon = {}
+    cur = [None]        # operands being processed, for the replay detail of representation failures
 
     def val(x):
         """canonical int of an element + reducedness / normalised-representation / eq / bool / hash consistency"""
@@ -282,9 +286,9 @@ def oracle_field(ctx, name, F, R, kind):
             rep = v.value                      # list of coefficients (odd p) or int bit mask (p = 2)
             if isinstance(rep, list):
                 if (rep and not rep[-1]) or not all(isinstance(c_, int) and 0 <= c_ < p for c_ in rep):
-                    bad('result-not-normalised', got=repr(rep))
+                    bad('result-not-normalised', got=repr(rep), while_processing=cur[0])
             elif not (isinstance(rep, int) and 0 <= rep < q):
-                bad('result-not-normalised', got=repr(rep))
+                bad('result-not-normalised', got=repr(rep), while_processing=cur[0])
         iv = int(v)
         c = canon.get(iv)
         if c is None:
@@ -292,9 +296,9 @@ def oracle_field(ctx, name, F, R, kind):
             if len(canon) < 70000:
                 canon[iv] = c
         if bool(x) != (iv != 0):
-            bad('bool-inconsistent', value=iv, got=bool(x), rep=repr(getattr(v, 'value', v)))
+            bad('bool-inconsistent', value=iv, got=bool(x), rep=repr(getattr(v, 'value', v)), while_processing=cur[0])
         if not (x == c) or (x != c) or hash(x) != hash(c):
-            bad('eq-hash-inconsistent', value=iv, eq=bool(x == c), rep=repr(getattr(v, 'value', v)))
+            bad('eq-hash-inconsistent', value=iv, eq=bool(x == c), rep=repr(getattr(v, 'value', v)), while_processing=cur[0])
         return iv
 
     full = q <= 256
@@ -314,6 +318,7 @@ def oracle_field(ctx, name, F, R, kind):
     pairs = [(i, j) for i in idx for j in idx]
     for (i, j) in pairs:
         a, b = E[i], E[j]
+        cur[0] = ['a op b', i, j]
         s = val(a + b)
         m = val(a * b)
         df = val(a - b)
@@ -398,6 +403,7 @@ def oracle_field(ctx, name, F, R, kind):
     iops = (('+=', operator.iadd), ('-=', operator.isub), ('*=', operator.imul), ('/=', operator.itruediv))
     for i in aset:
         for n in ints:
+            cur[0] = ['a op int/poly n', i, n]
             c = R.conv(n)
             forms = [('int', n)]
             if P is not None:
@@ -492,6 +498,7 @@ def oracle_field(ctx, name, F, R, kind):
     zset = sorted(set(list(aset) + [min(q - 1, p), min(q - 1, p + 1), min(q - 1, 2 * p), q - 1, q // 2]))
     for i in zset:
         for zn, zf in zforms:
+            cur[0] = ['a op zero', i, zn]
             def chk0(what, f):
                 r = catch(lambda: val(f()))
                 if r != ('ok', 0):
